@@ -49,4 +49,13 @@ def run(ctx):
     from rules import dm14 as D
     ctx.rule("R-FORWARD-NAMES", "ECU.send_pgn / notify forward their parameters by name", floor=2)
     D.forward_names(ctx, classes=("ElectronicControlUnit",))
+    ctx.rule("R-ORDER-SEND", "the send session is stored / advanced before RTS / connection-mode DT is handed to the bus (a reply processed inside the send call finds it)", floor=2)
+    S.order_send(ctx, L)
+    from rules import robust as _R
+    ctx.rule("R-PAIR-ORDER", "state / deadline pair: written state-first by the receive path, read deadline-first by the job scan (no spurious time-out of a healthy session)", floor=3)
+    _R.pair_order(ctx, L)
+    ctx.rule("R-SESSION-FRESH", "each receive session starts with its own empty reassembly buffer (nothing shared between sessions)", floor=2)
+    S.session_fresh(ctx, L)
+    ctx.rule("R-DT-MINLEN", "FD.TP.DT frames with header + 1..60 data bytes are not dropped by the length test", floor=1)
+    S.dt_minlen(ctx, L)
     return "structural necessary conditions of C02 decided on j1939_22.py"
